@@ -69,6 +69,8 @@ pub(super) fn creation_timestamp_of_currentfile(
             fmt,
         );
 
+        #[cfg(flexi_logger_verif)]
+        crate::verif_hooks::point("fs:rename", Some(&rotated_path))?;
         match std::fs::rename(current_path.clone(), rotated_path.clone()) {
             Ok(()) => {}
             Err(e) => {
